@@ -30,7 +30,19 @@
     every self-mutating method translated so far the effect on the caller's own object is not part of the translation.
   * `s.replace(a, b, 1)` -> `pyReplaceFirstC13` (first occurrence only; `count` must be the literal `1`).
   * `deepcopy(x)` (from `copy`) -> `x`: a `PVal` has no identity, a deep copy is the same value.
-  * `x.name` on a dependency … see `render` below.
+  * `str(x)` -> `pyStrC13` (`pyStr`, and the text of a `packaging` Version object).
+  * **fresh TagList locals** (`render`): a local bound exactly once, at the top level of the body, to `TagList()`, whose other
+    occurrences are only the receiver of `N.append(e, …)` / `N.extend(e)` statements (arguments do not mention `N`) and of
+    `N.render()`.  `append` / `extend` go to the translated `TagList.append` / `TagList.extend` (which return the new
+    instance), `N.render()` to the translated `TagList.render`.
+  * `Tag(name, child…, k=v…)` (no star arguments) -> `pyMkTagC13` (`Tag.__init__` is not translated: the primitive states the
+    object `Tag(…)` builds for a `str` name, `str` / `HTML` children and `str` / `True` attribute values).
+  * `d.as_html_tags(lib_prefix=a, include_version=b)` -> `pyAsHtmlTagsC13 d a b`: `HTMLDependency.as_html_tags` is not
+    translated; what it answers is a parameter — recorded by the harness in the embedded dependency object from the real
+    method, in the spirit of `pyReprHtml`.
+  * a list comprehension inside the argument of such an `append` / `extend` statement is hoisted: its loop is emitted before
+    the statement, provided everything Python evaluates before it in that statement is a constant, a name or an attribute
+    of a constant (no effect, cannot raise) — then running the loop first is what Python does.
 
 `raise E(message)`: the message is not evaluated (as everywhere in the translator).
 """
@@ -186,6 +198,104 @@ def _fresh(fn) -> _Fresh:
     return a
 
 
+# ------------------------------------------------------------------ fresh TagList locals, hoisted comprehensions
+def _fresh_tl(fn) -> set:
+    r = getattr(fn, "_c13_tl", None)
+    if r is not None:
+        return r
+    r = set()
+    node = fn.node
+    fr = _fresh(fn)
+    parents = fr.parents
+    nested = any(n is not node and isinstance(n, (ast.FunctionDef, ast.Lambda, ast.AsyncFunctionDef, ast.ClassDef)) for n in ast.walk(node))
+    stores: dict[str, list] = {}
+    for n in ast.walk(node):
+        if isinstance(n, ast.Name) and isinstance(n.ctx, (ast.Store, ast.Del)):
+            stores.setdefault(n.id, []).append(n)
+    for name, occs in stores.items():
+        if nested or name in fn.all_params or len(occs) != 1:
+            continue
+        st = parents.get(id(occs[0]))
+        if not (isinstance(st, ast.Assign) and len(st.targets) == 1 and st.targets[0] is occs[0] and parents.get(id(st)) is node):
+            continue
+        v = st.value
+        if not (isinstance(v, ast.Call) and isinstance(v.func, ast.Name) and v.func.id == "TagList" and _plain_args(v, 0)
+                and not _shadowed(fn, "TagList")):
+            continue
+        ok = True
+        for o in ast.walk(node):
+            if isinstance(o, ast.Name) and o.id == name and o is not occs[0] and _tl_use(parents, o) is None:
+                ok = False
+        if ok:
+            r.add(name)
+    fn._c13_tl = r
+    return r
+
+
+def _tl_use(parents, occ: ast.Name):
+    """("append" | "extend", statement) / ("render", call) if `occ` is the receiver of such a use, else None"""
+    a = parents.get(id(occ))
+    if not (isinstance(a, ast.Attribute) and a.value is occ and a.attr in ("append", "extend", "render")):
+        return None
+    c = parents.get(id(a))
+    if not (isinstance(c, ast.Call) and c.func is a and not c.keywords and not any(isinstance(x, ast.Starred) for x in c.args)):
+        return None
+    if any(_mentions(x, occ.id) for x in c.args):
+        return None
+    if a.attr == "render":
+        return ("render", c) if not c.args else None
+    s = parents.get(id(c))
+    if not isinstance(s, ast.Expr):
+        return None
+    if a.attr == "extend" and len(c.args) != 1 or a.attr == "append" and not c.args:
+        return None
+    return (a.attr, s)
+
+
+def _effect_free(e: ast.expr) -> bool:
+    """evaluating `e` has no effect and cannot raise: a constant, a bound name, an attribute of a constant (a method of a literal)"""
+    if isinstance(e, (ast.Constant, ast.Name)):
+        return True
+    return isinstance(e, ast.Attribute) and isinstance(e.value, ast.Constant)
+
+
+def _hoist(fn, ind: int, args: list):
+    """emit the loop of the (single) list comprehension among the arguments of an `append` / `extend` statement before it"""
+    lcs = [n for a in args for n in ast.walk(a) if isinstance(n, ast.ListComp)]
+    if not lcs:
+        return
+    if len(lcs) > 1:
+        raise T.Untranslatable("more than one list comprehension in a statement")
+    lc = lcs[0]
+
+    def path(root):
+        if root is lc:
+            return []
+        if isinstance(root, ast.Call):
+            if not _effect_free(root.func) or any(isinstance(a, ast.Starred) for a in root.args):
+                return None
+            for a in root.args:
+                p = path(a)
+                if p is not None:
+                    return [root] + p
+                if not _effect_free(a):
+                    return None
+            return None       # a comprehension in a keyword value: not hoisted
+        return None
+    for i, a in enumerate(args):
+        p = path(a)
+        if p is not None:
+            break
+        if not _effect_free(a):
+            raise T.Untranslatable("a list comprehension after an argument with effects")
+    else:
+        raise T.Untranslatable("a list comprehension in a position the translator cannot hoist it from")
+    d = getattr(fn, "_c13_lc", None)
+    if d is None:
+        d = fn._c13_lc = {}
+    d[id(lc)] = fn.listcomp_stmts(ind, lc)
+
+
 # ------------------------------------------------------------------ HTMLDependency(**kw)
 def _class_plain(fn, cname: str, seen=()) -> bool:
     """class `cname` of this file, and its bases in this file, define no `__new__` / `__init_subclass__` / metaclass"""
@@ -264,6 +374,17 @@ def _expr_hook(fn, e):
                     return f"(← pyJsonDumpsC13 {fn.V(e.args[0])} {ind})"
                 raise T.Untranslatable(f"json.{f.attr} with other than the plain arguments")
         if isinstance(f, ast.Name):
+            if f.id == "str" and _plain_args(e, 1) and not _shadowed(fn, "str"):
+                return f"(← pyStrC13 {fn.V(e.args[0])})"
+            if f.id == "Tag" and e.args and not any(isinstance(a, ast.Starred) for a in e.args) \
+                    and all(k.arg is not None for k in e.keywords):
+                if _shadowed(fn, "Tag") or not any(isinstance(n, ast.ClassDef) and n.name == "Tag" for n in _module(fn).body):
+                    raise T.Untranslatable("`Tag` is not the class of this file")
+                if any(k.arg.startswith("_") for k in e.keywords):
+                    raise T.Untranslatable("Tag(…, _add_ws=…)")
+                kids = ", ".join(fn.V(a) for a in e.args[1:])
+                kws = ", ".join(f"({T.lstr(k.arg)}, {fn.V(k.value)})" for k in e.keywords)
+                return f"(← pyMkTagC13 {fn.V(e.args[0])} (PVal.tuple [{kids}]) (PVal.dict [{kws}]))"
             if f.id == "set" and _plain_args(e, 0) and not _shadowed(fn, "set"):
                 return "pySetNewC13"
             if f.id == "HTMLDependency" and not e.args and len(e.keywords) == 1 and e.keywords[0].arg is None:
@@ -272,12 +393,30 @@ def _expr_hook(fn, e):
                 if not _imported_from(fn, "deepcopy", ("copy",)):
                     raise T.Untranslatable("`deepcopy` is not copy.deepcopy here")
                 return fn.V(e.args[0])
+        # d.as_html_tags(lib_prefix=a, include_version=b)
+        if isinstance(f, ast.Attribute) and f.attr == "as_html_tags":
+            kw = {k.arg: k.value for k in e.keywords}
+            if e.args or sorted(kw) != ["include_version", "lib_prefix"]:
+                raise T.Untranslatable("as_html_tags with other than the two keyword arguments")
+            return f"(← pyAsHtmlTagsC13 {fn.V(f.value)} {fn.V(kw['lib_prefix'])} {fn.V(kw['include_version'])})"
+        # N.render() on the fresh TagList local
+        if isinstance(f, ast.Attribute) and f.attr == "render" and isinstance(f.value, ast.Name) \
+                and f.value.id in _fresh_tl(fn) and _plain_args(e, 0):
+            info = fn.known.get("TagList_render")
+            if info is None or not info.available:
+                raise T.Untranslatable("TagList.render is not translated")
+            return fn.call_known(info, [], [], recv=fn.name(f.value.id))
         # s.replace(a, b, 1)
         if isinstance(f, ast.Attribute) and f.attr == "replace" and _plain_args(e, 3):
             c = e.args[2]
             if not (isinstance(c, ast.Constant) and type(c.value) is int and c.value == 1):
                 raise T.Untranslatable("str.replace with a count other than the literal 1")
             return f"(← pyReplaceFirstC13 {fn.V(f.value)} {fn.V(e.args[0])} {fn.V(e.args[1])})"
+    if isinstance(e, ast.ListComp):
+        r = getattr(fn, "_c13_lc", {}).get(id(e))
+        if r is None:
+            return None           # the base translator: right-hand side of an assignment, or untranslatable
+        return r
     if isinstance(e, ast.Compare) and len(e.ops) == 1 and isinstance(e.ops[0], (ast.In, ast.NotIn)):
         t = f"(← pyInC13 {fn.V(e.left)} {fn.V(e.comparators[0])})"
         return t if isinstance(e.ops[0], ast.In) else f"(PVal.bool (!truthy {t}))"
@@ -304,6 +443,18 @@ def _stmt_hook(fn, ind: int, s: ast.stmt):
             prim = "pyListAppendC13" if fr.kind[f.value.id] == "list" else "pySetAddC13"
             fn.emit(ind, f"{nm} := (← {prim} {nm} {fn.V(c.args[0])})")
             return True
+        # N.append(e, …) / N.extend(e) on the fresh TagList local
+        if isinstance(f, ast.Attribute) and isinstance(f.value, ast.Name) and f.value.id in _fresh_tl(fn):
+            use = _tl_use(fr.parents, f.value)
+            if use is not None and use[1] is s:
+                info = fn.known.get("TagList_append" if use[0] == "append" else "TagList_extend")
+                if info is None or not info.available or not info.spec.returns_self:
+                    raise T.Untranslatable(f"TagList.{use[0]} is not translated")
+                _hoist(fn, ind, c.args)
+                nm = fn.name(f.value.id)
+                fn.emit(ind, f"{nm} := " + fn.call_known(info, c.args, [], recv=nm))
+                return True
+            raise T.Untranslatable(f"use of the TagList local {f.value.id} outside the fragment")
         # self.A.extend(e)
         if (isinstance(f, ast.Attribute) and f.attr == "extend" and isinstance(f.value, ast.Attribute)
                 and isinstance(f.value.value, ast.Name) and f.value.value.id == "self" and "self" in fn.all_params
